@@ -5,3 +5,4 @@ from . import panics  # noqa: F401
 from . import decoder  # noqa: F401
 from . import pipeline  # noqa: F401
 from . import macros  # noqa: F401
+from . import projections  # noqa: F401
